@@ -167,6 +167,10 @@ class X:
         self._cmd("CP %d %d" % (id, b.id))
         return Buf(self, id, b.size)
 
+    def copy_over(self, dst, src):
+        """content of src written over dst inside the executor (equal sizes, nothing is allocated)"""
+        self._cmd("CB %d %d" % (dst.id, src.id))
+
     def out(self, size):
         return self.alloc(size, "u")
 
@@ -248,7 +252,8 @@ class X:
         rep = self._cmd(" ".join(parts))
         f = rep.split(" ")
         ret = int(f[1], 16) & 0xFFFFFFFF
-        log = bytes.fromhex(f[2]) if len(f) > 2 else b""
+        self.last_failed = int(f[2])        # number of allocations failed by injection in the child
+        log = bytes.fromhex(f[3]) if len(f) > 3 else b""
         blocks = []
         i = 0
         while i + 8 <= len(log):
